@@ -8,6 +8,7 @@ import numpy as np
 
 from .. import core, findlib
 from .. import gen_replace_c05 as G
+from .. import gen_c08_exact as GX
 from . import c05 as C5
 
 RULE = ("[ordinary streams] (a) self-replacement P→P on planted structures (all cell kinds, poses, boundary placements, all findlib patterns "
@@ -41,7 +42,17 @@ RULE = ("[ordinary streams] (a) self-replacement P→P on planted structures (al
         "attributed to the finding. "
         "HISTORY: 30 % of the plain / fraction (b) cases first search the unit cell, then let the library replicate it, and run A→B→A "
         "on the supercell object. MIRROR: in (b) a weakly chiral pattern (mirror misfit 0.5 Å, atol 0.1) next to its mirror image placed at coordinates "
-        "above 0.7 × cell length.")
+        "above 0.7 × cell length. "
+        "EXACT stream (e): 1–3 UNPERTURBED rigid copies (exact up to float rounding; ground truth by construction) of any ≥2-atom "
+        "pattern (not ch3, whose H are only approximately equivalent) + spectator atoms; cells orthorhombic, NEARLY orthorhombic "
+        "(diagonal + off-diagonal entries of 1e-7…3e-2 Å in a random subset of the six places), triclinic ±, rotated; poses random / "
+        "identity / quarter and half turns / NEAR-(ANTI)PARALLEL (copy's long axis at eps or pi ± eps, eps = 1e-8…3e-2 rad log-uniform, "
+        "to the pattern's long axis, after a random spin about it); placements anywhere or hugging faces / edges / corners, 15 % "
+        "given outside the cell; B = A with one atom / the last atom / two atoms (distinct new elements) substituted in place, or one "
+        "substituted + another re-positioned by 0.05–0.4 Å; every tolerance 0.01…0.2; 20 % replace_fraction < 1 on the way out. "
+        "Required: number replaced = number of planted copies (× fraction); after A→B no A is found; B→A finds as many; the "
+        "(element, position mod lattice) multiset is restored within 4e-6 Å (rounding noise; NOT a multiple of atol). A quarter of "
+        "the stream is a self-replacement with replace_all=True judged with the same 4e-6 Å.")
 
 MOF = os.path.join(core.REPO, "")
 
@@ -473,6 +484,67 @@ def oracle_site(case, o1, o2):
     return None
 
 
+# ------------------------------------------------------------------ (e) EXACT copies: restoration up to rounding noise
+
+EXACT_TOL = 4e-6      # Å; the copies are exact rigid images, so nothing but float rounding may remain (measured over 10^4
+                      # cases on the unchanged code: ≤ 2.4e-7 = sqrt(machine eps) × lever arm × a few steps)
+
+
+def run_exact(case):
+    """(o1, o2, found_after_first): A→B then B→A (mode aba), or one self-replacement with replace_all=True (mode self-all)"""
+    import mofun.mofun as mm
+    if case["mode"] == "self-all":
+        o1 = findlib.run_replace(case["s"], case["a"], case["a"], atol=case["atol"], seed=case["seed"],
+                                 fraction=case.get("fraction", 1.0), replace_all=True)
+        return o1, None, None
+    o1 = findlib.run_replace(case["s"], case["a"], case["b"], atol=case["atol"], seed=case["seed"],
+                             fraction=case.get("fraction", 1.0))
+    if "ok" not in o1:
+        return o1, None, None
+    o2 = findlib.run_replace(o1["ok"], case["b"], case["a"], atol=case["atol"], seed=case["seed"] + 1)
+    left = None
+    if case.get("fraction", 1.0) >= 1.0:
+        random.seed(case["seed"] + 2)
+        np.random.seed((case["seed"] + 2) % (2 ** 32))
+        with core.quiet():
+            left = [[int(i) for i in t] for t in mm.find_pattern_in_structure(core.atoms_from_json(o1["ok"]),
+                                                                               core.atoms_from_json(case["a"]), atol=case["atol"])]
+    return o1, o2, left
+
+
+def oracle_exact(case, o1, o2, left):
+    """ground truth by construction: the structure holds len(case["planted"]) exact copies of A (atoms of different copies
+    farther apart than a match can reach), B's substituted element is absent from the structure, B does not contain A"""
+    sj = case["s"]
+    cell = C5.cell_of(sj)
+    m = len(case["planted"])
+    f = case.get("fraction", 1.0)
+    want = m if f >= 1.0 else round(f * m)
+    if "ok" not in o1:
+        return "%s raised %s" % ("self-replacement (replace_all)" if case["mode"] == "self-all" else "A→B", o1.get("err"))
+    if o1["n"] != want:
+        return ("the structure holds %d exact copies of the pattern; the replacement (atol=%g, replace_fraction=%s) replaced %d"
+                % (m, case["atol"], f, o1["n"]))
+    if case["mode"] == "self-all":
+        d = C5.multiset_equal_mod_lattice(multiset(sj), multiset(o1["ok"]), cell, EXACT_TOL)
+        if d:
+            return ("self-replacement with replace_all=True on exact copies changes the (element, position mod lattice) multiset "
+                    "(tol %.1g Å): %s" % (EXACT_TOL, d))
+        return None
+    if o2 is None or "ok" not in o2:
+        return "B→A raised %s" % (o2 or {}).get("err")
+    if left:
+        return "after replacing all %d occurrences of A by B (which does not contain A) a second search for A finds %d: %s" % (
+            o1["n"], len(left), left[:3])
+    if o2["n"] != o1["n"]:
+        return "A→B replaced %d sites, B→A found %d" % (o1["n"], o2["n"])
+    d = C5.multiset_equal_mod_lattice(multiset(sj), multiset(o2["ok"]), cell, EXACT_TOL)
+    if d:
+        return ("A→B→A on exact copies does not restore the (element, position mod lattice) multiset (tol %.1g Å): %s"
+                % (EXACT_TOL, d))
+    return None
+
+
 # ------------------------------------------------------------------ (c) nothing left after replacing all
 
 def gone_case(rng, tier):
@@ -663,6 +735,32 @@ def do_site(ctx, case, ops):
             ops.append((dict(case, s=o1["ok"]), findlib.replace_op(o1["ok"], case["b"], case["a"], o2["used"]), o2))
 
 
+def do_exact(ctx, case, ops):
+    o1, o2, left = run_exact(case)
+    bad = oracle_exact(case, o1, o2, left)
+    ctx.case(case, nontrivial=("ok" in o1 and o1.get("n", 0) > 0))
+    ctx.count("exact")
+    ctx.count("exact:mode:" + case["mode"])
+    ctx.count("exact:cell:" + case["info"]["cell"])
+    ctx.count("exact:rp:" + case["info"]["rp"])
+    ctx.count("exact:boundary:" + case["info"]["boundary"])
+    for d in case["info"]["poses"]:
+        ctx.count("exact:pose:" + d.split("(")[0])
+    ctx.count("exact:fraction:%s" % case.get("fraction", 1.0))
+    ctx.count("atol:%g" % case["atol"])
+    if bad:
+        ctx.fail(bad, case, observed={"n1": o1.get("n"), "n2": (o2 or {}).get("n"), "found_again": left},
+                 required="exact copies: A→B→A (or a self-replacement) restores the multiset of (element, position mod lattice) "
+                          "up to rounding noise; no A left after A→B", tags=["c08", "exact"])
+    if ops is not None and o1.get("used") is not None:
+        if case["mode"] == "self-all":
+            ops.append((case, findlib.replace_op(case["s"], case["a"], case["a"], o1["used"], replace_all=True), o1))
+        else:
+            ops.append((case, findlib.replace_op(case["s"], case["a"], case["b"], o1["used"]), o1))
+            if o2 is not None and o2.get("used") is not None:
+                ops.append((dict(case, s=o1["ok"]), findlib.replace_op(o1["ok"], case["b"], case["a"], o2["used"]), o2))
+
+
 def do_gone(ctx, case, ops):
     o1, found2 = run_gone(case)
     bad = oracle_gone(case, o1, found2)
@@ -734,6 +832,8 @@ def run(ctx, oracle_only=False):
         do_site(ctx, site_case(rng, ctx.tier), ops)
     for _ in range(ctx.n(60, 1000)):
         do_gone(ctx, gone_case(rng, ctx.tier), None)
+    for _ in range(ctx.n(120, 2000)):
+        do_exact(ctx, GX.make_exact_case(rng, ctx.tier), ops)
     # tagged stream (known finding): patterns that carry terms the structure lacks
     do_self_terms(ctx, canonical_self_terms_case(), ops)
     for _ in range(ctx.n(30, 400)):
@@ -769,6 +869,7 @@ def search(ctx):
         for _ in range(800):
             do_site(ctx, site_case(rng, "thorough"), None)
             do_gone(ctx, gone_case(rng, "thorough"), None)
+            do_exact(ctx, GX.make_exact_case(rng, "thorough"), None)
             if ctx.failures:
                 return
         do_mofs(ctx)
@@ -791,6 +892,8 @@ def replay(ctx, rec):
             case, obj = derive_site(case)
         o1, o2 = run_site(case, obj)
         return oracle_site(case, o1, o2) in (None, "skip")
+    if op == "c08-exact":
+        return oracle_exact(case, *run_exact(case)) is None
     if op == "c08-gone":
         o1, f2 = run_gone(case)
         return oracle_gone(case, o1, f2) is None
